@@ -9,6 +9,7 @@
 -/
 import T2N.Lemmas.Act
 import T2N.Model.Langs
+import T2N.Lemmas.LangFacts
 
 namespace T2N.C07
 open T2N
@@ -64,6 +65,38 @@ theorem C07_apply_atomic_en (w : Word) (b : DS) (e : Err) (h : (En.apply w b).1 
           have := Act.exec_atomic _ b e' (by rw [hr])
           rw [hr] at this
           simpa using this
+
+/-! ### all seven interpreters: a rejected word leaves no trace but (possibly) the blocking flags;
+an accepted word always leaves a number (proofs in T2N/Lemmas/LangFacts.lean) -/
+
+theorem C07_reject_leaves_no_trace_en (w : Word) (b : DS) (e : Err) (h : (En.apply w b).1 = some e) :
+    T2N.SameButFlags b (En.apply w b).2 := En.apply_err_same w b e h
+theorem C07_reject_leaves_no_trace_dec_en (w : Word) (b : DS) (e : Err) (h : (En.applyDecimal w b).1 = some e) :
+    T2N.SameButFlags b (En.applyDecimal w b).2 := En.applyDecimal_err_same w b e h
+theorem C07_reject_leaves_no_trace_fr (w : Word) (b : DS) (e : Err) (h : (Fr.apply w b).1 = some e) :
+    T2N.SameButFlags b (Fr.apply w b).2 := Fr.apply_err_same w b e h
+theorem C07_reject_leaves_no_trace_dec_fr (w : Word) (b : DS) (e : Err) (h : (Fr.applyDecimal w b).1 = some e) :
+    T2N.SameButFlags b (Fr.applyDecimal w b).2 := Fr.applyDecimal_err_same w b e h
+theorem C07_reject_leaves_no_trace_es (w : Word) (b : DS) (e : Err) (h : (Es.apply w b).1 = some e) :
+    T2N.SameButFlags b (Es.apply w b).2 := Es.apply_err_same w b e h
+theorem C07_reject_leaves_no_trace_dec_es (w : Word) (b : DS) (e : Err) (h : (Es.applyDecimal w b).1 = some e) :
+    T2N.SameButFlags b (Es.applyDecimal w b).2 := Es.applyDecimal_err_same w b e h
+theorem C07_reject_leaves_no_trace_pt (w : Word) (b : DS) (e : Err) (h : (Pt.apply w b).1 = some e) :
+    T2N.SameButFlags b (Pt.apply w b).2 := Pt.apply_err_same w b e h
+theorem C07_reject_leaves_no_trace_dec_pt (w : Word) (b : DS) (e : Err) (h : (Pt.applyDecimal w b).1 = some e) :
+    T2N.SameButFlags b (Pt.applyDecimal w b).2 := Pt.applyDecimal_err_same w b e h
+theorem C07_reject_leaves_no_trace_it (w : Word) (b : DS) (e : Err) (h : (It.apply w b).1 = some e) :
+    T2N.SameButFlags b (It.apply w b).2 := It.apply_err_same w b e h
+theorem C07_reject_leaves_no_trace_dec_it (w : Word) (b : DS) (e : Err) (h : (It.applyDecimal w b).1 = some e) :
+    T2N.SameButFlags b (It.applyDecimal w b).2 := It.applyDecimal_err_same w b e h
+theorem C07_reject_leaves_no_trace_de (w : Word) (b : DS) (e : Err) (h : (De.apply w b).1 = some e) :
+    T2N.SameButFlags b (De.apply w b).2 := De.apply_err_same w b e h
+theorem C07_reject_leaves_no_trace_dec_de (w : Word) (b : DS) (e : Err) (h : (De.applyDecimal w b).1 = some e) :
+    T2N.SameButFlags b (De.applyDecimal w b).2 := De.applyDecimal_err_same w b e h
+theorem C07_reject_leaves_no_trace_nl (w : Word) (b : DS) (e : Err) (h : (Nl.apply w b).1 = some e) :
+    T2N.SameButFlags b (Nl.apply w b).2 := Nl.apply_err_same w b e h
+theorem C07_reject_leaves_no_trace_dec_nl (w : Word) (b : DS) (e : Err) (h : (Nl.applyDecimal w b).1 = some e) :
+    T2N.SameButFlags b (Nl.applyDecimal w b).2 := Nl.applyDecimal_err_same w b e h
 
 /-! non-vacuity: `billion` is rejected on `1000000000` and leaves it unchanged (the pinned tree left
 `1000000001`) -/
